@@ -19,3 +19,6 @@ def run(repo, res, tier):
     timerules.rule_r(repo, res)
     from .. import langrules
     langrules.rule_lex1(repo, res, langrules.analyse(repo), kinds=("date/time",))
+    # every text a time writer can return is a time for its own reader (all return paths, as languages)
+    from .. import timerules as _tr
+    _tr.rule_time_lang(repo, res)
